@@ -274,6 +274,54 @@ def lattice(tier):
     return c05.tier_lattice(tier) + odd_banks(tier)
 
 
+PAIR_BANKS = [
+    {"name": "fbank", "num_filts": 5, "low_hz": 20.0, "sampling_rate": 8000},
+    {"name": "fbank", "num_filts": 5, "low_hz": 20.0, "sampling_rate": 16000},
+    {"name": "fbank", "num_filts": 7, "low_hz": 0.0, "sampling_rate": 16000, "analytic": True},
+    {"name": "tri", "scaling_function": "mel", "num_filts": 5, "low_hz": 20.0, "sampling_rate": 8000},
+    {"name": "tri", "scaling_function": "bark", "num_filts": 5, "low_hz": 20.0, "sampling_rate": 16000},
+    {"name": "gabor", "scaling_function": "mel", "num_filts": 5, "low_hz": 20.0, "sampling_rate": 8000},
+    {"name": "gabor", "scaling_function": "mel", "num_filts": 5, "low_hz": 20.0, "sampling_rate": 16000,
+     "scale_l2_norm": True},
+    {"name": "gammatone", "scaling_function": "mel", "num_filts": 5, "low_hz": 20.0, "sampling_rate": 8000},
+    {"name": "gammatone", "scaling_function": "mel", "num_filts": 5, "low_hz": 20.0, "sampling_rate": 16000,
+     "order": 3},
+]
+
+
+@c05.quiet
+def _pair_point(pt, evaluator=None):
+    """two bank OBJECTS alive in one process (each chunk runs in a freshly forked child): A is
+    queried, then B at the same widths, then A again; every (bank, filter, width) case must satisfy
+    the property's own oracle - state shared between bank objects (class- or module-level caches
+    keyed without the bank's parameters) shows up on the second bank or on the return to the first"""
+    ia, ib = pt
+    evaluator = evaluator or _eval_fw
+    ba, bb = PAIR_BANKS[ia], PAIR_BANKS[ib]
+    ra, rb = c05.build(ba), c05.build(bb)
+    if ra[0] != "ok" or rb[0] != "ok":
+        return core.result([], nontrivial=False, obs="unconstructible", skipped=True)
+    e = c05.eps()
+    viol, seen = [], set()
+    evals = 0
+    for who, bank, b in (("A", ra[1], ba), ("B", rb[1], bb), ("A", ra[1], ba)):
+        for w in (64, 256):
+            for i in sorted({0, b["num_filts"] - 1}):
+                evals += 1
+                got = evaluator(bank, b, c05.bank_tags(b), i, w, e) if evaluator is _eval_fw \
+                    else evaluator(bank, b, i, w, e)
+                for what, extra_tags, detail in got[0]:
+                    key = (what, who) + tuple(sorted(extra_tags.items()))
+                    if key not in seen:
+                        seen.add(key)
+                        viol.append(core.violation(
+                            dict(c05.bank_tags(b), what=what, pair=True, second_object=(who == "B"), **extra_tags),
+                            "banks A=%r and B=%r alive in one process, queried A, B, A: on %s %s" % (
+                                ba, bb, who, detail), dict(pair=[ia, ib])))
+    return core.result(viol, evals=evals, nontrivial_count=evals, obs=[ia, ib, len(viol) == 0],
+                       sample=dict(A=ba, B=bb))
+
+
 def subchecks(tier, seed):
     banks = lattice(tier)
     subs = []
@@ -316,6 +364,13 @@ def subchecks(tier, seed):
                   scale=list(c05.SCALES), low=[0.0, 20.0],
                   high="None, floor(rate/2), rate/2, rate/2 + 0.5, rate/2 + 1", width=bws, flags="analytic"),
         replay=_replay, chunk=4))
+    subs.append(core.SubCheck(
+        "bank_pairs", [(a, b) for a in range(len(PAIR_BANKS)) for b in range(len(PAIR_BANKS)) if a != b],
+        _pair_point,
+        "every ordered pair of %d bank configurations (same class with different rates / flags, and "
+        "different classes) alive in ONE freshly forked process, queried A, B, A at the same widths; each "
+        "case must satisfy the property's oracle" % len(PAIR_BANKS),
+        replay=lambda case: _pair_point(tuple(case["pair"])), chunk=1, kind="histories"))
     hist_banks = c05.history_banks(tier)
     # banks with many narrow filters: only there does get_truncated_response take its genuinely
     # truncated path (wide filters fall back to the whole period), so histories must include them
